@@ -39,6 +39,7 @@ func Run(p *load.Program, tier string) *oblig.Set {
 	}
 	loopRule(p, s)
 	boundaryRule(p, s)
+	joinRule(p, s)
 	pkgStateRule(p, s)
 	readerRule(p, s)
 	segmentsRule(p, s)
